@@ -366,6 +366,7 @@ def check(prop, tier="quick", seed=0, procs=None, verbose=False):
         return None
 
     seen_names = set()
+    native_memo = {}
     for o in refuted:
         if o["name"] in seen_names:
             continue
@@ -386,7 +387,12 @@ def check(prop, tier="quick", seed=0, procs=None, verbose=False):
                 continue
             try:
                 cand = with_known(prop.id, cand)
-                res = native(cand, stop_at_first=True)
+                # several refuted obligations often share one candidate list (e.g. the widened
+                # neighbourhood): the native run is done once per distinct list
+                ck = hashlib.sha256(json.dumps(cand, sort_keys=True, default=str).encode()).hexdigest()
+                if ck not in native_memo:
+                    native_memo[ck] = native(cand, stop_at_first=True)
+                res = native_memo[ck]
             except Exception as e:  # noqa
                 errors.append(repr(e))
                 continue
